@@ -855,6 +855,7 @@ def check_settings(s, drv, res, hist, replay_filter=None):
                 elif o['clog'] and not s['auto']:
                     what, fkey = ('%s: the object returned by the member was not yaqlized (auto_yaqlize_result is off) '
                                   'and was reached: %r' % (o['text'], o['clog'])), 'result-reached'
+                    case['after_auto'] = True     # may depend on earlier evaluations with auto_yaqlize_result=True
                 elif not allowed and (o['log'] or o['clog']):
                     what, fkey = ('%s reached the object although %s: log %r' % (
                         o['text'], 'the object is not yaqlized' if not yz else
@@ -976,6 +977,31 @@ def run_settings(env, res, only=None):
     return hist
 
 
+def bystander(res, hist):
+    """after all the auto-yaqlize settings above: an instance of the result class that never went
+    through a yaqlized object is still an ordinary, unreachable host object (auto-yaqlization marks
+    the returned object, not its class)"""
+    eng = yaql.YaqlFactory().create()
+    ctx = yaql.create_context()
+    for text in ('$k.secret', '$k.secret()', "$k['secret']", '[$k].select($.secret)'):
+        k = Child()
+        ctx2 = ctx.create_child_context()
+        ctx2['k'] = k
+        del CLOG[:]
+        try:
+            out = repr(eng(text).evaluate(context=ctx2))
+        except Exception as x:      # noqa
+            out = '%s: %s' % (type(x).__name__, x)
+        hist['evaluations'] += 1
+        res.case('bystander:' + text)
+        res.traces += 1
+        if CLOG or 'VAL<' in out:
+            res.fail('oracle', 'bystander-reached',
+                     '%s on an instance of the result class that was never returned by a yaqlized object: log %r '
+                     'outcome %s (earlier evaluations went through objects with auto_yaqlize_result=True)' % (
+                         text, list(CLOG), out[:100]), dict(part='bystander', text=text))
+
+
 def lexer_guard(res, hist):
     """a keyword token cannot start with `__` (dynamic side of C07Gen.keyword_guard): `$o.__dx__` does
     not parse, while `$o._x` parses and is refused by the underscore rule"""
@@ -1009,13 +1035,22 @@ def run(env, res):
     if env['replay']:
         rp = json.load(open(env['replay']))['case']
         if rp.get('part') == 'B':
+            if rp.get('after_auto'):
+                warm = common.Result()
+                for s0 in systematic_settings():
+                    if s0['auto']:
+                        check_settings(s0, None, warm, dict(forms={}, outcomes={}, samples=9))
             res.extra['settings_histogram'] = run_settings(env, res, only=rp)
         elif rp.get('part') == 'A':
             res.extra['sweep_histogram'] = run_sweep(env, res, only=rp)
+        elif rp.get('part') == 'bystander':
+            h = run_settings(env, res)
+            bystander(res, h)
         else:
             res.extra['sweep_histogram'] = run_sweep(env, res)
         return res
     hb = run_settings(env, res)
+    bystander(res, hb)
     lexer_guard(res, hb)
     res.extra['settings_histogram'] = hb
     ha = run_sweep(env, res)
